@@ -139,8 +139,20 @@ impl Chunk {
         let mut size_buf = [0u8; 4];
         reader.read_exact(&mut size_buf)?;
         let size = u32::from_le_bytes(size_buf);
-        let mut data = vec![0u8; size as usize];
-        reader.read_exact(&mut data)?;
+        // The size field is untrusted: read at most `size` bytes and let the buffer grow with
+        // what the stream really holds instead of allocating `size` bytes up front.
+        let mut data = Vec::new();
+        reader.by_ref().take(size as u64).read_to_end(&mut data)?;
+        if data.len() != size as usize {
+            return Err(io::Error::new(
+                io::ErrorKind::UnexpectedEof,
+                format!(
+                    "chunk {} declares {size} bytes but only {} follow",
+                    String::from_utf8_lossy(&magic),
+                    data.len()
+                ),
+            ));
+        }
 
         Ok(Self { magic, size, data })
     }
